@@ -23,14 +23,47 @@ import (
 
 const c21hangMarker = "VERIF-C21-HANG-EXIT"
 
+// coarseClass reduces the shape class of a case to the dimension that matters
+// for a finding: all lengths below n are one class, all Variant shapes are one
+// class, element statuses are dropped. (The full class and script of the first
+// failing case are in the detail and the replay value.)
+func coarseClass(class string) string {
+	var out []string
+	for _, p := range strings.Split(class, "/") {
+		switch {
+		case p == "expected" || p == "hdr=good" || strings.HasPrefix(p, "elems="):
+		case p == "len=nil" || p == "len=0" || p == "len=short":
+			out = append(out, "len<n")
+		case p == "len=exact":
+			out = append(out, "len=n")
+		case p == "len=long":
+			out = append(out, "len>n")
+		case strings.HasPrefix(p, "variant="):
+			out = append(out, "variant")
+		default:
+			out = append(out, p)
+		}
+	}
+	if len(out) == 0 {
+		return "well-shaped"
+	}
+	return strings.Join(out, ",")
+}
+
+// c21signature: one finding per (site, failure kind, scripted service, shape
+// dimension). The client operation is not part of it: Sub.Monitor and
+// Monitor.AddNodes failing at the same frame are the same defect.
 func c21signature(c c21case, kind, frame string) string {
-	return fmt.Sprintf("%s/%s/%s/%s/%s", c.Op, strings.TrimSuffix(c.Svc, "Request"), c.Class, kind, frame)
+	if frame == "-" {
+		return fmt.Sprintf("%s/%s/%s/%s", kind, c.Op, strings.TrimSuffix(c.Svc, "Request"), coarseClass(c.Class))
+	}
+	return fmt.Sprintf("%s/%s/%s/%s", frame, kind, strings.TrimSuffix(c.Svc, "Request"), coarseClass(c.Class))
 }
 
 // c21judge turns a result into a violation (or none).
 func c21judge(c c21case, res c21result) (sig, detail string) {
 	b, _ := json.Marshal(c.Script)
-	what := fmt.Sprintf("operation %s, scripted %s responses %s", c.Op, c.Svc, b)
+	what := fmt.Sprintf("operation %s, response class %s, scripted %s responses %s", c.Op, c.Class, c.Svc, b)
 	switch res.Outcome {
 	case "panic":
 		kind := "panic:" + panicKind(res.Panic)
